@@ -612,6 +612,23 @@ class C11(Spec):
             alter = rng.choice(self.alterations(dim, nd)) if rng.random() < 0.3 and n >= 1 else None
             yield self.split_case(arr, axis, dim, cuts, alter, prefix=rng.random() < 0.5)
 
+        # isolation of annotations: tag one derived piece in place; the parent, the sibling and a copy keep theirs,
+        # and the tagged piece no longer concatenates with its sibling (mismatched metadata are rejected)
+        # (1-D / 2-D only: for 3-D arrays the per-epoch dicts are shared between an array and its views by design
+        # of the shallow copy in __array_finalize__, and the property does not speak about that)
+        for nd in (1, 2):
+            for how in ('copy', 'add', 'astype'):
+                arr = self.mk_arr([2, 2, 4][-nd:], s0=5, fs=(432, 1), md0=3)
+                it1, it2 = ['s', None, 2, None], ['s', 2, None, None]
+                val = 55 if nd < 3 else [55] * arr['shape'][0]
+                ops = [{'op': 'get', 'k': 0, 'j': 1, 'idx': {'t': 'tup', 'items': [['e'], it1]}},
+                       {'op': 'get', 'k': 0, 'j': 2, 'idx': {'t': 'tup', 'items': [['e'], it2]}},
+                       {'op': 'fin', 'k': 0, 'j': 3, 'how': how},
+                       {'op': 'set', 'k': 1, 'field': 'md', 'value': val, 'inplace': True},
+                       {'op': 'show', 'k': 0}, {'op': 'show', 'k': 2}, {'op': 'show', 'k': 3},
+                       {'op': 'concat', 'j': 30, 'dim': 'time', 'ks': [1, 2], 'expect': 'reject'}]
+                yield {'kind': 'isolation', 'arrs': [arr], 'ops': ops}
+
         # arithmetic / copies on fresh arrays
         for nd in (1, 2, 3):
             for how in ['add', 'mul', 'neg', 'copy', 'astype', 'gt', 'abs', 'self']:
@@ -620,7 +637,8 @@ class C11(Spec):
 
     @staticmethod
     def alterations(dim, nd):
-        out = [('fs', [27, 1])]
+        # 'fsnear': a rate differing by one part in 2^20 (a tolerant comparison would let it through)
+        out = [('fs', [27, 1]), ('fsnear', None)]
         if dim == 'time':
             out += [('s0', +1), ('s0', -1), ('s0', +5)]
         if dim != 'channel':
@@ -661,6 +679,9 @@ class C11(Spec):
                 ops.append({'op': 'set', 'k': piece, 'field': 's0', 'delta': val})
             elif field == 'fs':
                 ops.append({'op': 'set', 'k': piece, 'field': 'fs', 'value': [arr['fs'][0] * 2, arr['fs'][1]]})
+            elif field == 'fsnear':
+                ops.append({'op': 'set', 'k': piece, 'field': 'fs',
+                            'value': [arr['fs'][0] * (2 ** 20 + 1), arr['fs'][1] * 2 ** 20]})
             elif field == 'ch':
                 v = val if nd == 1 else ['zz'] * arr['shape'][-2]
                 ops.append({'op': 'set', 'k': piece, 'field': 'ch', 'value': v})
@@ -683,6 +704,8 @@ class C11(Spec):
                 lines.append(f"get {op['k']} {op['j']} {enc_index(op['idx'])}")
             elif op['op'] == 'fin':
                 lines.append(f"fin {op['k']} {op['j']}")
+            elif op['op'] == 'show':
+                lines.append(f"show {op['k']}")
             elif op['op'] == 'set':
                 if op['field'] == 's0':
                     lines.append(f"adds0 {op['k']} {op['delta']}")
@@ -747,9 +770,14 @@ class C11(Spec):
                         a.fs = op['value'][0] / op['value'][1]
                     elif op['field'] == 'ch':
                         a.channel = list(op['value']) if isinstance(op['value'], list) else op['value']
+                    elif op.get('inplace'):
+                        # the caller tags this piece through the public API (in-place update of ITS metadata)
+                        a.add_metadata('i', op['value'][0] if isinstance(op['value'], list) else op['value'])
                     else:
                         a.metadata = mkmd(op['value'])
                     out.append(canon_pd(a))
+                elif op['op'] == 'show':
+                    out.append(canon_pd(regs[op['k']]) if op['k'] in regs else 'err no-register')
                 elif op['op'] == 'concat':
                     if any(k not in regs for k in op['ks']):
                         out.append('err no-register')
@@ -815,6 +843,14 @@ class C11(Spec):
                 post = parse_line(line)
                 if post is not None:
                     regs[op['k']] = post
+            elif op['op'] == 'show':
+                post = parse_line(line)
+                if pre is not None and post is not None:
+                    d = same_annot(pre, post, data=False)
+                    if d:
+                        return (f"op {n}: annotations {d} of r{op['k']} changed although no operation was applied to it "
+                                f"(another array derived from the same data was tagged): "
+                                f"{[pre[k] for k in d]} -> {[post[k] for k in d]}")
             elif op['op'] == 'concat':
                 if any(k not in regs for k in op['ks']):
                     continue
@@ -950,7 +986,12 @@ class C11(Spec):
             elif op['op'] == 'fin':
                 parts.append(f"r{op['j']} = {op['how']}(r{op['k']})")
             elif op['op'] == 'set':
-                parts.append(f"r{op['k']}.{op['field']} {'+=' if 'delta' in op else '='} {op.get('delta', op.get('value'))}")
+                if op.get('inplace'):
+                    parts.append(f"r{op['k']}.add_metadata('i', {op['value']})")
+                else:
+                    parts.append(f"r{op['k']}.{op['field']} {'+=' if 'delta' in op else '='} {op.get('delta', op.get('value'))}")
+            elif op['op'] == 'show':
+                parts.append(f"look at r{op['k']}")
             else:
                 parts.append(f"r{op['j']} = concat([{', '.join('r%d' % k for k in op['ks'])}], axis='{op['dim']}')")
         return s + '; '.join(parts)
